@@ -27,7 +27,7 @@ func runC02(c *Ctx, r *Report, tier string) {
 	r.Rule("ADMISSIBLE", "argument vetting only for the separate-token form; refusal only by the validator or (PassDoubleDash) the terminator", 4)
 	r.Rule("SPLIT", "split at the first '='; name/argument slices; long: pos ≥ 0, short: pos == width of the first character", 4)
 	r.Rule("RUNES", "short names are handled as runes with their encoded width; the token is split exactly when the first rune is an argument-taking option followed by more bytes", 8)
-	r.Rule("CLUSTER", "attached argument only for the first option; next token only for the last, non-optional one", 3)
+	r.Rule("CLUSTER", "attached argument only for the first option; next token only for the last, non-optional one (short) / the non-optional one (long)", 4)
 	r.Rule("NEGATIVE", "negative-number exception: all layers unwrapped; '-' followed by a digit", 3)
 
 	po := c.mustFn(r, "(*Parser).parseOption")
@@ -279,6 +279,14 @@ func runC02(c *Ctx, r *Report, tier string) {
 			}
 		}
 		r.Check(okA, "CLUSTER", psn, "attached argument only for the first option of a cluster", c.ipos(in), "argument = (inline | concatenated) on entry, nil on every back edge", "argument operand is "+trunc(c.term(call.Call.Args[5]), 160))
+	}
+	// the long form: canarg is exactly ¬OptionalArgument of the option found
+	if pl := c.mustFn(r, "(*Parser).parseLong"); pl != nil {
+		for _, in := range c.instrs(pl, c.isCallTo("(*Parser).parseOption")) {
+			t := c.term(in.(ssa.CallInstruction).Common().Args[4])
+			ok := strings.HasPrefix(t, "!(Option.OptionalArgument(lookup(lookup.longNames(") && !strings.Contains(t, "phi{")
+			r.Check(ok, "CLUSTER", c.fname(pl), "a long option takes the next token exactly when its argument is not optional", c.ipos(in), "canarg = ¬option.OptionalArgument", "canarg is "+trunc(t, 160)+": an option with an optional argument can swallow the following token")
+		}
 	}
 	// splitShortConcatArg only when no inline argument
 	for _, in := range c.instrs(ps, c.isCallTo("(*Parser).splitShortConcatArg")) {
